@@ -1408,6 +1408,15 @@ def check_safe_wrap(rep, app):
                     isinstance(v.args[1], ast.Constant) and v.args[1].value == 'wsgi_wrapper' and isinstance(v.args[2], ast.Constant) and v.args[2].value is None:
                 wnames.append(s.targets[0].id)
     wnames = [w for w in wnames if single_value(sw, w) is not None]
+    if not wnames:
+        # a lookup of 'wsgi_wrapper' there is, but not ``getattr(<source>, 'wsgi_wrapper', None)`` on the source itself (on its
+        # class, on another object, with another default): a wrapper set on the instance is missed / something else is called
+        other = [c for c in walk_body(sw.node) if isinstance(c, ast.Call) and call_name(c) == 'getattr' and len(c.args) >= 2 and
+                 isinstance(c.args[1], ast.Constant) and c.args[1].value == 'wsgi_wrapper']
+        if other:
+            rep.check('R13.b', fkey(sw, 'no wrapper'), False, '_safe_wrap_wsgi does not take the wrapper from the source itself with default None: %s' %
+                      '; '.join(short(c, 60) for c in other), sw.mod, sw.node)
+            return
     if len(wnames) != 1:
         raise AnalysisError('_safe_wrap_wsgi: no single local holding getattr(%s, \'wsgi_wrapper\', None) found' % ps[1])
     W = wnames[0]
@@ -1577,8 +1586,31 @@ def _leading_two(expr, param):
         call_tail(expr.value) == 'get_arg_names' and len(expr.value.args) == 1 and norm(expr.value.args[0]) == param
 
 
-def accepted_names(cs, param):
-    """{index: parameter name} the path conditions pin down for the leading argument names of ``param``."""
+def _folded_names(fi, b):
+    """The sequence of names ``b`` stands for: a tuple / list display of constants, or a module-level name of ``fi``'s module
+    (not a parameter / local of ``fi``) that folds -- single static assignment, constants only -- to a tuple / list of
+    strings.  -> list of values, or None."""
+    if isinstance(b, (ast.List, ast.Tuple)) and all(isinstance(e, ast.Constant) for e in b.elts):
+        return [e.value for e in b.elts]
+    if isinstance(b, ast.Name) and fi is not None and not isinstance(fi.node, ast.Lambda) and b.id not in fi.params():
+        for n in ast.walk(fi.node):
+            if isinstance(n, ast.Name) and n.id == b.id and isinstance(n.ctx, (ast.Store, ast.Del)):
+                return None
+            if isinstance(n, (ast.Global, ast.Nonlocal)) and b.id in n.names:
+                return None
+        try:
+            v = fi.mod.const(b.id)
+        except Exception:
+            return None
+        if isinstance(v, (tuple, list)) and all(isinstance(x, str) for x in v):
+            return list(v)
+    return None
+
+
+def accepted_names(cs, param, fi=None):
+    """{index: parameter name} the path conditions pin down for the leading argument names of ``param``.  A comparison of
+    the leading two names as a whole with a sequence of constants counts position by position; the sequence may be a
+    module constant of ``fi``'s module (folded)."""
     out = {}
     for t, p in expand_conds(cs):
         if not (isinstance(t, ast.Compare) and len(t.ops) == 1):
@@ -1591,9 +1623,11 @@ def accepted_names(cs, param):
                 i = _names_index(a, param)
                 if i is not None:
                     out[i] = b.value
-            if isinstance(b, (ast.List, ast.Tuple)) and all(isinstance(e, ast.Constant) for e in b.elts) and _leading_two(a, param):
-                for i, e in enumerate(b.elts):
-                    out[i] = e.value
+            if _leading_two(a, param):
+                vals = _folded_names(fi, b)
+                if vals is not None:
+                    for i, e in enumerate(vals):
+                        out[i] = e
     return out
 
 
@@ -1604,7 +1638,7 @@ def check_valid_wsgi_rule(rep, app):
         raise AnalysisError('check_valid_wsgi does not take exactly one parameter')
     paths = exit_paths(cv)
     accepting = [p for p in paths if p[0] == 'return']
-    bad = [p for p in accepting if [accepted_names(p[2], ps[0]).get(i) for i in (0, 1)] != ['environ', 'start_response']]
+    bad = [p for p in accepting if [accepted_names(p[2], ps[0], cv).get(i) for i in (0, 1)] != ['environ', 'start_response']]
     for p in bad:
         # a decision delegated to a function of the analysed tree that could not be followed is "cannot tell", not "wrong"
         for t, _ in p[2]:
